@@ -178,6 +178,12 @@ impl Envelope {
         for envelope in envelopes {
             for assertion in envelope.assertions_with_predicate(known_values::SSKR_SHARE) {
                 let share = assertion.subject().as_object().unwrap().extract_subject::<SSKRShare>()?;
+                // A share decodes from any byte string; one too short to carry its
+                // two-byte identifier is malformed, and `identifier()` would index
+                // out of bounds on it.
+                if share.data().len() < 2 {
+                    bail!(EnvelopeError::InvalidShares);
+                }
                 let identifier = share.identifier();
                 result.entry(identifier).and_modify(|shares| shares.push(share.clone())).or_insert(vec![share]);
             }
